@@ -53,6 +53,10 @@ func genComponentFile(c *core.Ctx, idx int) (compDef, []model.Stmt) {
 	}
 	tag := strings.ToUpper(def.name[strings.LastIndex(def.name, "/")+1:])
 	stmts := []model.Stmt{model.Text{S: "<" + tag + " "}}
+	if r.Intn(6) == 0 {
+		// the file begins with bytes editors like to add or drop: they are text of the component like any other
+		stmts = []model.Stmt{model.Text{S: []string{"\ufeff", "\ufeff\ufeff", "\n", "\r\n", " ", "\t"}[r.Intn(6)] + "<" + tag + " "}}
+	}
 	for _, a := range def.args {
 		stmts = append(stmts, model.Text{S: a + "="}, model.Print{E: model.Var{Name: a}}, model.Text{S: ";"})
 		if r.Intn(2) == 0 {
@@ -157,6 +161,10 @@ func (cc *compCase) genUse(c *core.Ctx, def compDef, scopeVar string, forceNoSlo
 			if r.Intn(3) == 0 {
 				body = append(body, model.If{Conds: []model.Expr{model.Var{Name: "db"}}, Bodies: [][]model.Stmt{{model.Text{S: "(db)"}}}})
 			}
+			if len(cc.comps) > 0 && r.Intn(4) == 0 {
+				// a use inside a slot body (a block of the page like any other), without slots of its own
+				body = append(body, model.Text{S: "{"}, cc.genUse(c, cc.comps[r.Intn(len(cc.comps))], scopeVar, true), model.Text{S: "}"})
+			}
 			if def.slotVar && r.Intn(2) == 0 {
 				body = append(body, model.Text{S: "was"}, model.Print{E: model.Var{Name: "sv"}}, model.Assign{Name: "sv", E: model.Binary{Op: "+", L: model.Var{Name: "sv"}, R: model.Lit{V: model.Int(int64(site))}}})
 			}
@@ -188,6 +196,9 @@ func genComponentTree(c *core.Ctx, i int) *compCase {
 		var stmts []model.Stmt
 		stmts = append(stmts, model.Text{S: "page " + name + ": "})
 		nUses := 1 + r.Intn(4)
+		if r.Intn(4) == 0 {
+			nUses = 5 + r.Intn(8)
+		}
 		for u := 0; u < nUses; u++ {
 			def := cc.comps[r.Intn(len(cc.comps))]
 			if u > 0 && r.Intn(2) == 0 {
@@ -293,6 +304,42 @@ func init() {
 							c.Count("page_renders_compared", 1)
 							c.Count("tracer_events_expected", len(exp.Events))
 						}
+					}
+				}},
+				// k plain uses, then a use whose slot bodies hold uses of their own, then more uses: every one shows
+				{Name: "uses-inside-slot-bodies", Exhaustive: true, N: 20 * 3, Run: func(c *core.Ctx, i int) {
+					before, shape := i%20, i/20
+					var page, want strings.Builder
+					for k := 0; k < before; k++ {
+						fmt.Fprintf(&page, "@component(\"~item\", {n: %d})", k)
+						fmt.Fprintf(&want, "<i %d>", k)
+					}
+					switch shape {
+					case 0:
+						page.WriteString(`@component("~box")@slot@component("~item", {n: 100})@end@end`)
+						want.WriteString("[box <i 100> | ]")
+					case 1:
+						page.WriteString(`@component("~box")@slot a @component("~item", {n: 100}) b @component("~item", {n: 101})@end@slot("foot")@component("~item", {n: 200})@end@end`)
+						want.WriteString("[box  a <i 100> b <i 101> | <i 200>]")
+					default:
+						page.WriteString(`@component("~box")@slot@component("~box")@slot("foot")@component("~item", {n: 300})@end@end@end@end`)
+						want.WriteString("[box [box  | <i 300>] | ]")
+					}
+					page.WriteString(`@component("~item", {n: 900})`)
+					want.WriteString("<i 900>")
+					files := map[string]string{"components/item.tw": "<i {{ n }}>", "components/box.tw": `[box @slot | @slot("foot")]`, "page.tw": page.String()}
+					tpl, err := loadTree(c, "c07nest", files, ".tw")
+					c.Nontrivial(page.String())
+					if err != nil {
+						c.Violation("load-failed", "a valid component tree was rejected: "+err.Error(), map[string]any{"files": describeFiles(files)})
+						return
+					}
+					if tpl == nil {
+						return
+					}
+					got, _ := renderPage(c, tpl, "page", nil)
+					if !got.Panicked && (got.Err != nil || got.Out != want.String()) {
+						c.Violation("use-inside-slot-body", fmt.Sprintf("the page rendered %s, want %q", got.Describe(), want.String()), map[string]any{"files": describeFiles(files)})
 					}
 				}},
 				// text between a component's ")" and what follows is text unless it is plain whitespace before a @slot:
